@@ -26,8 +26,17 @@ struct Ops<galois::worklists::internal::ChunkMaster<T, QT, D, S, CS, C>> {
 } // namespace c01
 
 using namespace galois::worklists;
-#define TAB_F(WL) c01::conserve_table<WL>(c01::SEQ_F, sizeof(c01::SEQ_F) / c01::SEQLEN)
-#define TAB_N(WL) c01::conserve_table<WL>(c01::SEQ_N, sizeof(c01::SEQ_N) / c01::SEQLEN)
+namespace c01 {
+// chunk size 3: longer fills
+static const unsigned char SEQ_F3[][SEQLEN] = {
+    {1, 1, 2, 2, 2, 2, 9},       // 3 + 1 items: overflow into a second chunk, pop across the boundary
+    {1, 0, 3, 0, 2, 1, 2, 9},    // flush a full chunk, keep pushing
+    {1, 1, 1, 2, 0, 3, 2, 9},    // two full chunks
+    {2, 0, 2, 2, 1, 3, 1, 1, 9}, // empty pops, flush between range pushes
+    {0, 2, 0, 2, 0, 2, 9},
+    {1, 0, 3, 1, 0, 3, 2, 2, 0, 9},
+};
+} // namespace c01
 // thorough tier: vf_param(0) selects the worklist type, the remaining parameters are the kind sequence + configuration
 OB(wl_chunk_all4) {
   switch (vf_param(0)) {
@@ -46,10 +55,10 @@ OB(wl_ptchunk_all4) {
 }
 OB(wl_chunk3) {
   switch (vf_param(0)) {
-  case 0: c01::conserve_table<ChunkFIFO<3>>(c01::SEQ_F, 6, 1); break;
-  case 1: c01::conserve_table<ChunkLIFO<3>>(c01::SEQ_F, 6, 1); break;
-  case 2: c01::conserve_table<PerSocketChunkFIFO<3>>(c01::SEQ_F, 6, 1); break;
-  case 3: c01::conserve_table<PerSocketChunkLIFO<3>>(c01::SEQ_F, 6, 1); break;
-  default: c01::conserve_table<PerSocketChunkBag<3>>(c01::SEQ_F, 6, 1); break;
+  case 0: c01::conserve_table<ChunkFIFO<3>>(c01::SEQ_F3, 6, 1); break;
+  case 1: c01::conserve_table<ChunkLIFO<3>>(c01::SEQ_F3, 6, 1); break;
+  case 2: c01::conserve_table<PerSocketChunkFIFO<3>>(c01::SEQ_F3, 6, 1); break;
+  case 3: c01::conserve_table<PerSocketChunkLIFO<3>>(c01::SEQ_F3, 6, 1); break;
+  default: c01::conserve_table<PerSocketChunkBag<3>>(c01::SEQ_F3, 6, 1); break;
   }
 }
